@@ -6,6 +6,7 @@ package main
 
 import (
 	"crypto/sha256"
+	"fmt"
 
 	specqbft "github.com/bloxapp/ssv-spec/qbft"
 	spectypes "github.com/bloxapp/ssv-spec/types"
@@ -175,6 +176,9 @@ func (f *Forge) forgeScript(op spectypes.OperatorID, startValue []byte) []Script
 					}
 					preps = append(preps, p)
 				}
+				if r.Chance(10) { // the round-change's own prepare justification with repeated entries
+					preps, _ = repeatMsgs(r, preps, env.q, env.n)
+				}
 				rc := f.roundChange(id, target, pr, val, preps)
 				if r.Chance(6) {
 					rc.FullData = valB
@@ -229,11 +233,17 @@ func (f *Forge) forgeScript(op spectypes.OperatorID, startValue []byte) []Script
 			} else if r.Chance(5) {
 				val = badValue
 			}
+			if len(pj) > 1 && r.Chance(25) { // the proposal's prepare justification with repeated entries (its round-changes' own ones intact)
+				pj, _ = repeatMsgs(r, pj, env.q, env.n)
+			}
 			ld := f.leader(target)
 			if r.Chance(10) {
 				ld = spectypes.OperatorID(1 + r.Intn(env.n))
 			}
 			rcj := rcs
+			if len(rcj) > 1 && r.Chance(12) { // repeated round-changes in the justification
+				rcj, _ = repeatMsgs(r, rcj, env.q, env.n)
+			}
 			switch r.Intn(12) {
 			case 0:
 				rcj = nil
@@ -270,6 +280,9 @@ func (f *Forge) forgeScript(op spectypes.OperatorID, startValue []byte) []Script
 		if r.Chance(30) {
 			k := int(env.q) + r.Intn(env.n-int(env.q)+1)
 			dr := []specqbft.Round{1, cur, target, 0}[r.Intn(4)]
+			if r.Chance(15) { // aggregate whose signer LIST has quorum length with repeated ids
+				add(f.decided(repeatIDs(r, f.subset(k), env.q), f.h, dr, valA))
+			}
 			add(f.decided(f.subset(k), f.h, dr, valA))
 			if r.Chance(50) {
 				add(f.decided(f.subset(int(env.q)+r.Intn(env.n-int(env.q)+1)), f.h, dr, []([]byte){valA, valB}[r.Intn(2)]))
@@ -284,4 +297,150 @@ func (f *Forge) forgeScript(op spectypes.OperatorID, startValue []byte) []Script
 		}
 	}
 	return ops
+}
+
+// ---------------------------------------------------------------- lists with REPEATED entries
+
+// repeatMsgs turns a justification list into one whose LENGTH and number of DISTINCT signers differ (the code counts distinct
+// signers at some sites — specqbft.HasQuorum / HasPartialQuorum — and list lengths at others — Share.HasQuorum(len(..))):
+//
+//	0: one entry replaced by a copy of another (same length, one distinct signer fewer)
+//	1: quorum-1 distinct entries padded with copies to exactly the quorum size (if the list is long enough)
+//	2: quorum-1 distinct entries padded with copies to the committee size
+//	3: all entries kept, one or two copies appended
+//	4: every entry twice
+func repeatMsgs(r *hx.Rng, ms []*specqbft.SignedMessage, q uint64, n int) ([]*specqbft.SignedMessage, string) {
+	if len(ms) < 2 {
+		return ms, ""
+	}
+	cp := func(m *specqbft.SignedMessage) *specqbft.SignedMessage { return cloneMsg(m) }
+	pad := func(distinct, size int) []*specqbft.SignedMessage {
+		if distinct > len(ms) {
+			distinct = len(ms)
+		}
+		if distinct < 1 {
+			distinct = 1
+		}
+		out := append([]*specqbft.SignedMessage{}, ms[:distinct]...)
+		for len(out) < size {
+			out = append(out, cp(ms[r.Intn(distinct)]))
+		}
+		p := r.Perm(len(out))
+		sh := make([]*specqbft.SignedMessage, len(out))
+		for i, j := range p {
+			sh[i] = out[j]
+		}
+		return sh
+	}
+	switch mode := r.Intn(5); mode {
+	case 0:
+		out := append([]*specqbft.SignedMessage{}, ms...)
+		i := r.Intn(len(out))
+		j := (i + 1 + r.Intn(len(out)-1)) % len(out)
+		out[i] = cp(out[j])
+		return out, "replace-one"
+	case 1:
+		return pad(int(q)-1, int(q)), "pad-to-quorum"
+	case 2:
+		return pad(int(q)-1, n), "pad-to-committee"
+	case 3:
+		out := append([]*specqbft.SignedMessage{}, ms...)
+		for k := 1 + r.Intn(2); k > 0; k-- {
+			out = append(out, cp(ms[r.Intn(len(ms))]))
+		}
+		return out, "append-copies"
+	default:
+		var out []*specqbft.SignedMessage
+		for _, m := range ms {
+			out = append(out, m, cp(m))
+		}
+		return out, "all-twice"
+	}
+}
+
+// repeatIDs: a signer list of (at least) quorum LENGTH with fewer distinct ids
+func repeatIDs(r *hx.Rng, ids []spectypes.OperatorID, q uint64) []spectypes.OperatorID {
+	if len(ids) < 2 {
+		return ids
+	}
+	d := int(q) - 1 - r.Intn(2)
+	if d < 1 {
+		d = 1
+	}
+	if d > len(ids) {
+		d = len(ids)
+	}
+	out := append([]spectypes.OperatorID{}, ids[:d]...)
+	for uint64(len(out)) < q+uint64(r.Intn(2)) {
+		out = append(out, ids[r.Intn(d)])
+	}
+	return out
+}
+
+// scenarioRepeatedJustifications (directed, mode c06; seeded change C06b-m3): instance three-way (node / ssv-spec / model) and
+// controller. The operator is in round 1; the leader of round 2 sends proposals for X that carry a quorum of round-changes
+// prepared on (1, X) — each with its own intact prepare quorum — and a PrepareJustification of quorum (or committee) LENGTH
+// from fewer than quorum DISTINCT signers; then round-change justifications with repeated round-changes; then the intact one.
+func scenarioRepeatedJustifications(n int, h specqbft.Height, ctrl bool) caseOut {
+	env := getEnv(n)
+	r := hx.NewRng(uint64(n)*977 + uint64(h))
+	f := &Forge{env: env, r: r, h: h}
+	ld := f.leader(2)
+	op := spectypes.OperatorID(1)
+	if op == ld {
+		op = 2
+	}
+	var others []spectypes.OperatorID
+	for i := 1; i <= n; i++ {
+		if spectypes.OperatorID(i) != op {
+			others = append(others, spectypes.OperatorID(i))
+		}
+	}
+	qs := others[:env.q]
+	X := valueBytes(7)
+	root := sha256.Sum256(X)
+	var preps, rcs []*specqbft.SignedMessage
+	for _, id := range qs {
+		preps = append(preps, f.prepare(id, 1, root))
+	}
+	for i, id := range qs {
+		if i == 0 {
+			rcs = append(rcs, f.roundChange(id, 2, 1, X, preps))
+		} else {
+			rcs = append(rcs, f.roundChange(id, 2, 0, nil, nil))
+		}
+	}
+	short := func(size int) []*specqbft.SignedMessage { // quorum-1 distinct signers, `size` entries
+		out := append([]*specqbft.SignedMessage{}, preps[:env.q-1]...)
+		for len(out) < size {
+			out = append(out, cloneMsg(preps[len(out)%int(env.q-1)]))
+		}
+		return out
+	}
+	c := newCase(env, op, h, [][]byte{badValue}, ctrl, !ctrl, false)
+	c.emit(c.resetLine(), "ok")
+	deliver := func(m *specqbft.SignedMessage) {
+		if ctrl {
+			c.applyCtrlDeliver(decodeMsg(enc(m)))
+		} else {
+			c.applyInstDeliver(enc(m))
+		}
+	}
+	if ctrl {
+		c.applyCtrlStart(h, valueBytes(3))
+	} else {
+		c.applyInstStart(valueBytes(3), h)
+	}
+	deliver(f.proposal(ld, 2, X, rcs, short(int(env.q))))
+	deliver(f.proposal(ld, 2, X, rcs, short(n)))
+	deliver(f.proposal(ld, 2, X, rcs, append(append([]*specqbft.SignedMessage{}, preps[:1]...), preps[:env.q-1]...)))
+	// repeated round-changes: quorum length, quorum-1 distinct signers
+	rshort := append(append([]*specqbft.SignedMessage{}, rcs[:env.q-1]...), cloneMsg(rcs[0]))
+	deliver(f.proposal(ld, 2, X, rshort, preps))
+	// a round-change message whose OWN prepare justification has quorum length from quorum-1 distinct signers
+	deliver(f.roundChange(qs[1], 2, 1, X, short(int(env.q))))
+	deliver(f.proposal(ld, 2, X, append([]*specqbft.SignedMessage{f.roundChange(qs[0], 2, 1, X, short(int(env.q)))}, rcs[1:]...), preps))
+	// intact
+	deliver(f.proposal(ld, 2, X, rcs, preps))
+	return finishCase(c, []string{"case/directed", fmt.Sprintf("directed/repeated-justification-entries-n%d-ctrl-%v", n, ctrl)})
 }
